@@ -28,11 +28,12 @@ NCb  == [n \in 1..NN |-> TrieRecs[n].cb]
 NVal == [n \in 1..NN |-> TrieRecs[n].val]
 
 INSTANCE InkHostAbs
+INSTANCE InkHostRules
 
 VARIABLES l,      \* index of the next event
           st,     \* instance -> abstract state (of the current case)
           slots,  \* slot name -> saved abstract state
-          cs,     \* [case, skip, probed, cmp, pf]
+          cs,     \* [case, skip, probed, c = the case's configuration event]
           nbad    \* number of mismatches so far
 
 vars == <<l, st, slots, cs, nbad>>
@@ -69,19 +70,22 @@ OutRej(v, s, sl) == [v |-> v, s |-> s, sl |-> sl, rej |-> TRUE]
 \* the valid operation `lab` of the reference system
 RValid(s, e, lab, F(_, _)) ==
   IF ~HasKid(Here(s), lab) THEN Out(Verdict("Uncovered", lab), s, slots)
-  ELSE LET t == F(s, lab)
-           n == Here(t) IN
-       IF e.res # NRes[n] THEN Out(Verdict("Valid.result", e.res), t, slots)
-       ELSE IF e.cb # NCb[n] /\ cs.cmpcb THEN Out(Verdict("Valid.callbacks", ""), t, slots)
-       ELSE IF e.val # NVal[n] /\ cs.cmpval THEN Out(Verdict("Valid.value", ""), t, slots)
-       ELSE Out(ObsVerdict("Valid.observation", t, e.o, cs.cmp, cs.pf), t, slots)
+  ELSE LET t0 == F(s, lab)
+           n == Here(t0)
+           t == Track(t0, e)
+           cr == CallbackRulesOn(s, e, NObs[n], cs.c) IN
+       IF e.res # NRes[n] /\ cs.c.cmpres THEN Out(Verdict("Valid.result", e.res), t, slots)
+       ELSE IF e.cb # NCb[n] /\ cs.c.cmpcb THEN Out(Verdict("Valid.callbacks", ""), t, slots)
+       ELSE IF e.val # NVal[n] /\ cs.c.cmpval THEN Out(Verdict("Valid.value", ""), t, slots)
+       ELSE IF cr # "" THEN Out(Verdict(cr, ""), t, slots)
+       ELSE Out(ObsVerdict("Valid.observation", t, e.o, cs.c.cmp, cs.c.pf), t, slots)
 
 \* a call that must be refused and must change nothing (C09; during a pending slice: C08)
 RBad(s, e, rule) ==
   IF e.res = "panic" \/ e.res = "abort" THEN OutRej(Verdict(rule \o ".panic", ""), s, slots)
   ELSE IF e.res # "err" /\ ~e.lenient THEN OutRej(Verdict(rule \o ".accepted", e.res), s, slots)
   ELSE IF e.cb # <<>> THEN OutRej(Verdict(rule \o ".callbacks", ""), s, slots)
-  ELSE OutRej(ObsVerdict(rule \o ".changed", s, e.o, cs.cmpall, FALSE), s, slots)
+  ELSE OutRej(ObsVerdict(rule \o ".changed", s, e.o, cs.c.cmpall, FALSE), s, slots)
 
 RCont(s, e) ==
   IF s.pend THEN
@@ -101,28 +105,28 @@ RSlice(s, e) ==
 
 RSave(s, e) ==
   IF e.res # "ok" THEN Out(Verdict("Save.result", e.res), s, slots)
-  ELSE LET v == ObsVerdict("Save.changed", s, e.o, cs.cmpall, FALSE) IN
+  ELSE LET v == ObsVerdict("Save.changed", s, e.o, cs.c.cmpall, FALSE) IN
        Out(v, s, (e.slot :> SaveSlot(s, e.o.save)) @@ slots)
 
 RLoad(s, e) ==
   IF e.slot \notin DOMAIN slots THEN Out(Verdict("Uncovered", "slot"), s, slots)
   ELSE IF e.res # "ok" THEN Out(Verdict("Load.result", e.res), s, slots)
   ELSE LET t == LoadF(s, slots[e.slot])
-           v == ObsVerdict("Load.observation", t, e.o, cs.cmp, cs.pf) IN
-       IF v.ok /\ cs.cmpsave /\ e.o.save # slots[e.slot].save
+           v == ObsVerdict("Load.observation", t, e.o, cs.c.cmp, cs.c.pf) IN
+       IF v.ok /\ cs.c.cmpsave /\ e.o.save # slots[e.slot].save
        THEN Out(Verdict("Load.resave", "save"), t, slots)
        ELSE Out(v, t, slots)
 
 RReset(s, e) ==
   IF s.pend THEN RBad(s, e, "Guarded.reset")
   ELSE IF e.res # "ok" THEN Out(Verdict("Reset.result", e.res), s, slots)
-  ELSE LET t == ResetF(s) IN Out(ObsVerdict("Reset.observation", t, e.o, cs.cmp, FALSE), t, slots)
+  ELSE LET t == ResetF(s) IN Out(ObsVerdict("Reset.observation", t, e.o, cs.c.cmp, FALSE), t, slots)
 
 REval(s, e) ==
   IF s.pend THEN RBad(s, e, "Guarded.eval")
   ELSE IF e.res # "ok" THEN Out(Verdict("Eval.result", e.res), s, slots)
   ELSE LET t == EvalF(s, e.key, e.val)
-           v == ObsVerdict("Eval.disturbed", s, e.o, cs.cmpall, FALSE) IN
+           v == ObsVerdict("Eval.disturbed", s, e.o, cs.c.cmpall, FALSE) IN
        IF ~v.ok THEN Out(v, t, slots)
        ELSE IF e.key \in DOMAIN s.memo /\ s.memo[e.key] # e.val THEN Out(Verdict("Eval.repeat", ""), t, slots)
        ELSE IF e.expect # 0 /\ e.expect # e.val THEN Out(Verdict("Eval.value", ""), t, slots)
@@ -133,14 +137,14 @@ RSwitch(s, e) ==
   ELSE IF e.res # "ok" THEN Out(Verdict("Switch.result", e.res), s, slots)
   ELSE LET t0 == IF e.cls = "switchdef" THEN SwitchDefaultF(s) ELSE SwitchF(s, e.f)
            t == [t0 EXCEPT !.last = NObs[Here(t0)]] IN
-       Out(ObsVerdict("Switch.observation", t, e.o, cs.cmp, cs.pf), t, slots)
+       Out(ObsVerdict("Switch.observation", t, e.o, cs.c.cmp, cs.c.pf), t, slots)
 
 RRemove(s, e) ==
   IF e.f = DefaultFlow \/ e.f \notin Alive(s) THEN RBad(s, e, "Rejected.remove_flow")
   ELSE IF e.res # "ok" THEN Out(Verdict("Remove.result", e.res), s, slots)
   ELSE LET t0 == RemoveF(s, e.f)
            t == [t0 EXCEPT !.last = NObs[Here(t0)]] IN
-       Out(ObsVerdict("Remove.observation", t, e.o, cs.cmp, cs.pf), t, slots)
+       Out(ObsVerdict("Remove.observation", t, e.o, cs.c.cmp, cs.c.pf), t, slots)
 
 \* operations outside the tracked reference system: no rule except "no panic"
 RFree(s, e) ==
@@ -155,8 +159,25 @@ RJumpReset(s, e) ==
   ELSE IF e.o.frames # 1 \/ e.o.nthreads # 1 THEN Out(Verdict("Jump.callstack", "frames"), FreeF(s, e.o), slots)
   ELSE Out(Good, FreeF(s, e.o), slots)
 
+\* a host assignment between continues: a valid operation with its own notification rule (C11)
+RSetVar(s, e) ==
+  LET r == RValid(s, e, e.lab, ValidF)
+      nr == IF cs.c.chk11 /\ e.res = "ok" THEN SetVarNotifyRule(s, e) ELSE "" IN
+  IF r.v.ok /\ nr # "" THEN Out(Verdict(nr, ""), r.s, slots) ELSE r
+
+\* registrations and host assignments that the reference runs do not contain: the position does not
+\* move, the registration set does (C11: they may be added and removed at arbitrary points)
+RRegFree(s, e) ==
+  IF e.res # "ok" THEN Out(Verdict("Register.result", e.res), s, slots)
+  ELSE IF e.op = "set_var" /\ cs.c.chk11 /\ SetVarNotifyRule(s, e) # ""
+       THEN Out(Verdict(SetVarNotifyRule(s, e), ""), Track(s, e), slots)
+  ELSE Out(Good, [Track(s, e) EXCEPT !.last = e.o], slots)
+
 Rule(s, e) ==
-  CASE e.cls = "free" \/ (s.lost /\ e.cls \in {"valid", "cont", "choose", "reg", "slice", "switch", "switchdef", "remove", "eval", "bad"}) -> RFree(s, e)
+  CASE e.cls = "skip" -> Out(Good, s, slots)
+    [] e.cls = "regfree" -> RRegFree(s, e)
+    [] e.cls = "setvar" -> IF s.pend THEN RBad(s, e, "Guarded.set_var") ELSE RSetVar(s, e)
+    [] e.cls = "free" \/ (s.lost /\ e.cls \in {"valid", "cont", "choose", "reg", "slice", "switch", "switchdef", "remove", "eval", "bad"}) -> RFree(s, e)
     [] e.cls = "jumpreset" -> RJumpReset(s, e)
     [] e.cls = "valid"    -> IF s.pend THEN RBad(s, e, "Guarded.call") ELSE RValid(s, e, e.lab, ValidF)
     [] e.cls = "reg"      -> IF s.pend THEN RBad(s, e, "Guarded.register") ELSE RValid(s, e, e.lab, RegisterF)
@@ -180,16 +201,13 @@ Init ==
   /\ l = 1
   /\ st = <<>>
   /\ slots = <<>>
-  /\ cs = [case |-> -1, skip |-> FALSE, probed |-> FALSE, cmp |-> <<>>, cmpall |-> <<>>, pf |-> FALSE,
-           cmpcb |-> TRUE, cmpval |-> TRUE, cmpsave |-> TRUE]
+  /\ cs = [case |-> -1, skip |-> FALSE, probed |-> FALSE, c |-> <<>>]
   /\ nbad = 0
 
 \* first event of a case: class "case" carries the comparison configuration
 StartCase ==
   /\ l <= Len(Ev) /\ Ev[l].cls = "case"
-  /\ cs' = [case |-> Ev[l].case, skip |-> FALSE, probed |-> FALSE, cmp |-> Ev[l].cmp,
-            cmpall |-> Ev[l].cmpall, pf |-> Ev[l].pf, cmpcb |-> Ev[l].cmpcb, cmpval |-> Ev[l].cmpval,
-            cmpsave |-> Ev[l].cmpsave]
+  /\ cs' = [case |-> Ev[l].case, skip |-> FALSE, probed |-> FALSE, c |-> Ev[l]]
   /\ st' = <<>> /\ slots' = <<>> /\ l' = l + 1 /\ UNCHANGED nbad
 
 Skip ==
@@ -200,7 +218,7 @@ NewInstance ==
   /\ l <= Len(Ev) /\ ~cs.skip /\ Ev[l].cls = "new"
   /\ LET e == Ev[l]
          s == Fresh(e.root, e.froot)
-         d == IF e.res = "ok" THEN DiffOn(e.o, s.last, cs.cmp) ELSE "result" IN
+         d == IF e.res = "ok" THEN DiffOn(e.o, s.last, cs.c.cmp) ELSE "result" IN
      IF d = "" THEN /\ st' = (e.i :> s) @@ st
                     /\ UNCHANGED <<cs, nbad>>
      ELSE /\ PrintT(<<"MISMATCH", l, cs.case, "Calib.new", d>>)
@@ -219,9 +237,9 @@ Call ==
      THEN /\ PrintT(<<"MISMATCH", l, cs.case, "Uncovered", "instance">>)
           /\ cs' = [cs EXCEPT !.skip = TRUE] /\ nbad' = nbad + 1 /\ UNCHANGED <<st, slots>>
      ELSE LET r == Rule(st[e.i], e)
-              probe == e.cls \notin {"valid", "reg", "cont", "choose", "free"} \/ r.rej IN
+              probe == e.cls \notin {"valid", "reg", "cont", "choose", "free", "skip", "regfree"} \/ r.rej IN
           IF r.v.ok
-          THEN /\ st' = [st EXCEPT ![e.i] = r.s]
+          THEN /\ st' = [st EXCEPT ![e.i] = [r.s EXCEPT !.vm = e.vm]]
                /\ slots' = r.sl
                /\ cs' = [cs EXCEPT !.probed = cs.probed \/ probe]
                /\ UNCHANGED nbad
